@@ -398,7 +398,7 @@ def read_cases(draw):
     if lastext.is_12(lastext.spec_version(spec)):
         pass
     case = {"src": {"spec": spec}, "opts": draw(OPTS), "edits": draw(st.lists(EDIT, max_size=2)),
-            "writes": draw(st.integers(1, 3)), "read_kw": {"mnemonic_case": draw(st.sampled_from(["upper", "preserve"]))}}
+            "writes": draw(st.integers(1, 3)), "read_kw": {"mnemonic_case": draw(st.sampled_from(["upper", "preserve", "lower"]))}}
     if draw(st.integers(0, 2)) == 0:
         # edit - write - edit (possibly undoing the first edit) - write ...
         d = draw(st.sampled_from([0.25, 1.0, -0.5]))
